@@ -271,6 +271,29 @@ func ruleWriterInvariant(c *Ctx, p *core.Program, prefix string) {
 			c.R.Bad(rule, core.FuncName(flush), cfg, p.Pos(miss[0].At.Pos()), "Flush can return (write error) without resetting: what was queued before the failed flush is written again by the next one", p.TrailString(miss[0])...)
 			return
 		}
+		// no other way out to the connection: a direct Write of the Writer's conn in any Writer method would
+		// emit staged bytes and chained slices in an order of its own
+		for _, fn := range p.Funcs() {
+			if rn := core.RecvNamed2(fn); rn == nil || rn.Obj().Name() != "Writer" || pkgOf(fn) == nil || pkgOf(fn).Path() != core.PkgProto {
+				continue
+			}
+			for _, call := range core.Calls(fn) {
+				cc := call.Common()
+				if !cc.IsInvoke() || cc.Method.Name() != "Write" || !strings.HasPrefix(core.FieldOrigin(cc.Value, 0), "Writer.") {
+					continue
+				}
+				dom := false
+				for _, ct := range core.FindCalls(fn, isWriterMethod("cutBuffer")) {
+					if core.Dominates(ct.(ssa.Instruction), call.(ssa.Instruction)) {
+						dom = true
+					}
+				}
+				if !dom {
+					c.R.Bad(rule, core.CallKey(fn, call), cfg, p.Pos(call.Pos()), "the Writer writes to the connection directly, without the staging buffer's tail having been cut into the vector first: bytes staged after the last chained slice (a block header, the end-of-data marker) go out before the slices chained ahead of them")
+					return
+				}
+			}
+		}
 		// receiver of WriteTo is &w.vec and its target w.conn
 		c.R.Ok(rule, core.FuncName(flush), cfg, p.Pos(w.Pos()), "cutBuffer -> vec.WriteTo(conn) -> reset on all paths")
 	}()
@@ -551,6 +574,34 @@ func ruleExitGuards(c *Ctx, p *core.Program, rule string) {
 		for _, b := range fn.Blocks {
 			ifi, ok := b.Instrs[len(b.Instrs)-1].(*ssa.If)
 			if !ok {
+				continue
+			}
+			// "returns at once without emitting anything": the test is reached before anything was written
+			// (the exit of an encoding loop is a bare return too, but not a shortcut)
+			effect := func(in ssa.Instruction) bool {
+				switch x := in.(type) {
+				case *ssa.Store:
+					if _, spill := x.Val.(*ssa.Parameter); spill {
+						return false // a value receiver / parameter moved to its stack slot
+					}
+					return true
+				case *ssa.MapUpdate:
+					return true
+				case ssa.CallInstruction:
+					if _, isB := x.Common().Value.(*ssa.Builtin); isB {
+						return false
+					}
+					if x.Common().IsInvoke() {
+						return x.Common().Method.Name() != "Rows"
+					}
+					if f := core.CalleeFunc(x); f != nil && f.Name() == "Rows" {
+						return false
+					}
+					return true
+				}
+				return false
+			}
+			if len(core.ReachAvoiding(core.Entry(fn), func(x ssa.Instruction) bool { return x == ssa.Instruction(ifi) }, effect, nil)) == 0 {
 				continue
 			}
 			for si, sc := range b.Succs {
